@@ -67,6 +67,29 @@ def family(tier, rnd):
                         p = chain_prog(depth, rk, sw, hks, he, followups=False, pre=PRE[rnd.choice(list(PRE))])
                         p["eol"] = rnd.choice(["", "crlf"]); p["tag"] += "/in-handler/%s" % (p["eol"] or "lf")
                         P.append(p)
+    # across module files: the chain names, for every active call, the FILE (module) and the call-site line in that file
+    LV = {1: [[1]], 2: [[0, 1], [1, 1], [1, 2]], 3: [[0, 1, 2], [1, 1, 2], [1, 2, 2], [0, 0, 1]]}
+    for depth in (1, 2, 3):
+        for levels in LV[depth]:
+            for rk in ("thr", "idx", "div", "undef"):
+                for sw in ("plain", "inwhile", "call-arg", "iter-target", "decl-rhs"):
+                    for hist in (False, True):
+                        if tier == "quick" and rnd.random() > 0.35: continue
+                        hks = ["none"] * (depth + 1)
+                        if rnd.random() < 0.3: hks[rnd.randrange(depth + 1)] = "nomatch"
+                        p = chain_prog(depth, rk, sw, hks, "ret", followups=False, pre=PRE[rnd.choice(list(PRE))], levels=levels)
+                        if hist: handled_history(p)
+                        p["eol"] = rnd.choice(["", "crlf", "cr"])
+                        p["tag"] += "/%s/%s" % (p["eol"] or "lf", "hist" if hist else "nohist")
+                        P.append(p)
+            # a fault raised inside a handler block of a method that lives in a module file
+            for he in ("rethrow", "fault"):
+                for lvl in range(1, depth + 1):
+                    if tier == "quick" and rnd.random() > 0.5: continue
+                    hks = ["none"] * (depth + 1); hks[lvl] = "match"
+                    p = chain_prog(depth, "idx", "plain", hks, he, followups=False, levels=levels)
+                    p["tag"] += "/in-handler"
+                    P.append(p)
     return P
 
 
@@ -121,7 +144,7 @@ def run(ctx):
                evaluations=stats["programs"] + nsyn, distinct_nontrivial=len(set(p["tag"] for p in progs)) + len(pv),
                rule="runtime: fault kind {抛出, custom class, index, division by zero, undefined name} x call depth 0..3 x statement context x "
                     "layout material before the fault {blank lines, // comment, /* */ block, 注：“…” block, mixture} x line ends {LF, CRLF, CR} x "
-                    "history {none, an earlier handled exception + returned call} (quick: seeded 22%% sample of the matrix); expected fault line and "
+                    "history {none, an earlier handled exception + returned call}; the same with the call chain crossing one or two module-file boundaries (every chain entry compared as (file, line)) (quick: seeded 22%% sample of the matrix); expected fault line and "
                     "call chain = the ZnEval machine's frames at the fault. syntax: all texts <= 7 over {narrow, wide, LF, CR, bad} with one bad "
                     "character: reported line, marker offset (display widths) and quoted line must equal ZnPos's", runtime=stats, syntax_vectors=len(pv))
     return cov, ["message wording not compared", "chain order: outermost call first, as the report prints it",
